@@ -97,11 +97,26 @@ func journalBegin(st *mc.Stats, b []byte, conv int, via string) int {
 	}
 	journal[o+4] = byte(conv)
 	journal[o+5] = 0
+	journal[o+6] = 0
 	if via == "load" {
 		journal[o+5] = 1
 	}
 	copy(journal[o+8:], b[:n])
 	binary.LittleEndian.PutUint32(journal[o:], uint32(n)+1) // length+1; 0 = slot idle
+	return s
+}
+
+// journalBeginIn records a large input by its recipe (JSON of In) instead of its bytes.
+func journalBeginIn(st *mc.Stats, in In) int {
+	if journal == nil {
+		return -1
+	}
+	raw, err := json.Marshal(in)
+	if err != nil || len(raw) > slotSize-16 {
+		return -1
+	}
+	s := journalBegin(st, raw, in.Conv, in.Via)
+	journal[s*slotSize+6] = 1
 	return s
 }
 
@@ -122,6 +137,14 @@ func inFlight(j []byte) []In {
 		via := "ar"
 		if j[o+5] == 1 {
 			via = "load"
+		}
+		if j[o+6] == 1 { // a recipe
+			var in In
+			if json.Unmarshal(j[o+8:o+8+n-1], &in) == nil {
+				in.Desc += " (in flight when the checking process died)"
+				out = append(out, in)
+			}
+			continue
 		}
 		out = append(out, In{Hex: hex.EncodeToString(j[o+8 : o+8+n-1]), Conv: int(j[o+4]), Via: via, Desc: "in flight when the checking process died (recovered from the journal)"})
 	}
@@ -260,7 +283,7 @@ func supervise(r *mc.Run) bool {
 	r.Scenario("process-fatal-error", map[string]interface{}{"inputs_in_flight": len(cands), "note": "the enumeration stopped when the checking process died; exhaustive:false"},
 		1, func(_ int, st *mc.Stats) bool {
 			for _, c := range found {
-				b, _ := hex.DecodeString(c.in.Hex)
+				b, _ := c.in.Bytes()
 				st.Evals++
 				st.Class("process died: " + c.how)
 				st.Viol = append(st.Viol, mc.V("process-fatal-error", "no-panic", c.in, "no panic (and no fatal runtime error)",
